@@ -145,6 +145,10 @@ class Recorder:
                 info["ed_ok"] = ed.transition is tr and ed.machine is machine
                 info["ed_view"] = [getattr(ed.state, "id", None), getattr(ed.source, "id", None),
                                    getattr(ed.target, "id", None), str(ed.event)]
+                td = ed.trigger_data
+                info["ed_ok"] = info["ed_ok"] and td.machine is machine and td.model is kwargs.get("model") and td.event is ed.event
+                info["ed_args"] = [a if isinstance(a, (int, str, float, type(None))) else repr(a) for a in ed.args]
+                info["ed_ukw"] = sorted(k for k in td.kwargs if k != "_tok")
             except Exception:  # noqa: BLE001
                 info["ed_ok"] = False
         info["model_ok"] = (kwargs.get("model") is machine.model) if machine is not None else None
